@@ -114,14 +114,81 @@ pub fn strategy() -> BoxedStrategy<Case> {
     .boxed()
 }
 
+/// small scope: every sugar shape over a fixed operand pool (atoms of every kind, sets — also
+/// as the operand that gets wrapped —, compounds, statements, images) × formats
+pub fn small_scope() -> Vec<Case> {
+    let a = D::word("a");
+    let pool: Vec<D> = vec![
+        a.clone(),
+        D::word("1"),
+        D::atom(IVar, "x"),
+        D::atom(Op, "op"),
+        D::interval(7),
+        D::placeholder(),
+        D::node(SetExt, vec![a.clone()]),
+        D::node(SetInt, vec![a.clone()]),
+        D::node(SetExt, vec![a.clone(), D::word("b")]),
+        D::node(Product, vec![a.clone(), D::word("b")]),
+        D::node(Inh, vec![a.clone(), D::word("b")]),
+        D::node(EquPred, vec![a.clone(), D::word("b")]),
+        D::image(ImgExt, 1, vec![a.clone(), D::word("b")]),
+        D::node(Neg, vec![a.clone()]),
+    ];
+    let mut out = vec![];
+    for fi in 0..3usize {
+        for s in &pool {
+            for p in &pool {
+                let shapes = vec![
+                    D::node(Inh, vec![D::node(SetExt, vec![s.clone()]), p.clone()]),
+                    D::node(Inh, vec![s.clone(), D::node(SetInt, vec![p.clone()])]),
+                    D::node(Inh, vec![D::node(SetExt, vec![s.clone()]), D::node(SetInt, vec![p.clone()])]),
+                    D::node(EquPred, vec![s.clone(), p.clone()]),
+                ];
+                for d in shapes {
+                    out.push(Case { fi, d, tape: vec![3] });
+                }
+            }
+        }
+        // images: every placeholder position, later placeholders at every position
+        for k in IMAGES {
+            for n in 1..=4usize {
+                for idx in 0..=n {
+                    for later in 0..(1u32 << (n - idx.min(n))) {
+                        let mut kids: Vec<D> = (0..n).map(|i| D::word(&format!("c{i}"))).collect();
+                        for j in idx..n {
+                            if later & (1 << (j - idx)) != 0 && j > idx {
+                                kids[j] = D::placeholder();
+                            }
+                        }
+                        out.push(Case { fi, d: D::image(k, idx, kids), tape: vec![3] });
+                    }
+                }
+            }
+        }
+        for v in [0usize, 1, 7, 30000, usize::MAX] {
+            out.push(Case { fi, d: D::node(Product, vec![D::interval(v), a.clone()]), tape: vec![5, 2] });
+        }
+    }
+    out
+}
+
 pub fn streams() -> Vec<Box<dyn AnyStream>> {
-    vec![Box::new(Stream::<Case> {
+    vec![
+        Box::new(Stream::<Case> {
+            name: "small-scope",
+            quick: 0,
+            thorough: 0,
+            source: Source::Enum(Box::new(|_| Box::new(small_scope().into_iter()))),
+            check: Box::new(check),
+        }),
+        Box::new(Stream::<Case> {
         name: "sugar",
         quick: 30_000,
         thorough: 2_000_000,
         source: Source::Gen(Box::new(strategy)),
         check: Box::new(check),
-    })]
+    }),
+    ]
 }
 
 pub const PROP: Prop = Prop {
